@@ -30,7 +30,9 @@ XS = [1.0, 2.0, 4.0]
 # row / column coordinates are deliberately not in ascending order
 RV = [20, 10]
 QV = ["v", "u"]
-ZNUM = [0.5, 2.0, 3.0, 4.5, 5.0, 6.5, 7.0, 8.0, 9.5, 10.0, 11.0, 12.5]
+# (neither ascending nor descending: the first and last values are not the
+# extremes of any prefix of length >= 3)
+ZNUM = [2.0, 10.0, 0.5, 4.5, 12.5, 6.5, 3.0, 8.0, 9.5, 5.0, 11.0, 7.0]
 ZSTR = ["q", "p", "zz", "A", "b", "c", "d", "e", "f", "g", "h", "i"]
 
 
